@@ -544,7 +544,7 @@ func TestVerif_C41_RLSKeys(t *testing.T) {
 		return fails[i].key < fails[j].key
 	})
 	for i, f := range fails {
-		if i >= 5 {
+		if i >= 3 {
 			break
 		}
 		r.Violation(P, f.key, f.msg, f.c)
